@@ -60,6 +60,17 @@ CHECKS = {
              "single-label lref reached by an indirect jump and equal to laddr, two-label lref equal to the same engine's laddr difference).",
         note="Trusted: my own size table (ld = 16 bytes on x86-64) and the section rule of MIR.md. Section tail padding is not judged.",
         design="3/C14"),
+    "C16": dict(
+        technique=TECH + "history oracle: every observation after generation is compared with the observation made before any generation",
+        text="Histories over a linked program (generated executable functions plus helpers needing builtin prototypes, alloca, varargs, multiple "
+             "results and a hard-register-tied global) mix MIR_gen at random levels and orders, repeated MIR_gen (same address), textual output "
+             "of every item of the module (unchanged), interpretation and calls through public/generated addresses (unchanged results), and "
+             "later modules that call and inline the generated functions (expected value computed from the baseline); under the interpreter "
+             "interface with explicit MIR_gen, eager generation at link and lazy generation; fast and ASan/assert builds.",
+        note="Histories currently use -O0/-O1 only (checks/c16.py MAX_LEVEL) because generated entry functions with laddr+jmpi hit a generator "
+             "defect at -O2/-O3 that belongs to C01. One open known finding (lref tables are shared by the engines) is exercised in a forked "
+             "sub-run only. Lazy basic-block generation is out of the property's scope.",
+        design="3/C16"),
     "C10": dict(
         technique=TECH + "round-trip oracle: structural module comparison through the public API + text fixpoint + differential execution",
         text="Modules covering the whole item/insn/operand vocabulary are built through the API, written by MIR_output_module, scanned back into a "
